@@ -215,6 +215,17 @@ PROPS["C19"] = dict(
     assumptions=COMMON_ASSUME,
 )
 
+PROPS["C18"] = dict(
+    title="bad configuration is an error, never a crash; accepted configuration runs",
+    level="exploration",
+    technique="runtime monitor around the shipped binary: structural YAML/JSON mutation of valid configurations judged by `--test` (exit status / death by signal), accepted mutants started and probed under a supervisor (alive, answers, CPU bounded), arbitrary rule lists posted to the API",
+    text="Two valid seed documents (an equivalent of the shipped config.yaml with fixture certificates, and a small harness config) are mutated: every field deleted, retyped to 17 replacement values (null, strings, integers incl. 2^64, float, bool, list, map, 70 kB string, NUL, bad addresses) or duplicated, plus targeted mutants for listener/connector type and name, duplicate names, balancer member graphs (empty, missing, self, 2- and 3-cycles, diamond), rule filters (syntax, type, arity, tuple index, run-time errors, nesting 10..100000 levels of five shapes), access-log formats (bad, non-string, failing at load, failing only at request time), TLS material (missing, empty, garbage, key without PEM block, swapped). Each is given to `redproxy-rs --test`: exit 0 or exit 1 with a message, never a signal or a hang; accepted ones are started on fresh ports and sent one well-formed request per listener: the process must stay alive, answer or close within 5 s and not spin. 25 rule-list bodies (wrong shapes, ill-typed filters, huge and deeply nested) are posted to /api/rules: an HTTP response and a live process each time.",
+    note="trusted: the harness seed equivalent of config.yaml (tproxy listeners left out: they need privileges); only single mutations are applied",
+    design_ref="DESIGN.md 3 C18",
+    steps=[e2e("c18")],
+    assumptions=COMMON_ASSUME,
+)
+
 NOT_YET = {}
 
 
